@@ -1,5 +1,6 @@
 import Proofs.IgnoreOrder
 import Proofs.HashSound
+import Proofs.HashComplete
 import Model.Generated.Tables
 import Model.Hash.Prep
 /-!
@@ -16,8 +17,11 @@ What is machine-checked here:
   tuples, sets, dictionaries, leaves; domain = pairwise different hashable keys from a universe on
   which `==` is identity (NoNumAlias), sets whose members hash differently, canonical floats), so
   `C12_empty_implies_equal_deephash` and `C05_verdict_deephash` carry no hypothesis about the hash.
-The converse for the *root* hash (equal digests ⇒ equal sets of item digests) needs the
-injectivity of the hash framing (C07) and is decided on the implementation.
+* the converse — equal digests decode to the verdict — is **proved for the DeepHash model** too
+  (`hashComplete_V`, from the unique decodability of the `,` `;` `:` `|` framing): for an injective
+  hasher with separator-free, non-empty digests (`Hex`), inside NoSpoof, with canonical floats and
+  scalar keys.  Together: `C12_equal_deephash_iff_empty_diff` — the property itself, in the model,
+  for every pairing, report_repetition setting and threshold.
 -/
 namespace DiffIO
 open Py Diff
@@ -68,10 +72,119 @@ theorem C05_verdict_deephash (K : List PyVal) (hK : StrictK K) (c : IOCfg) (H : 
     (deepDiff c (dh c H) P a b).tree = [] ↔ verdict c (dh c H) a b = true :=
   C12_diff_iff_verdict (domV K (dh c H)) (domV_closed K (dh c H)) c (dh c H) P (hashSound_concrete K hK c H) hc a b da db
 
+/-- **Equal digests exactly when the verdict holds** (DeepHash model; injective hasher with
+separator-free digests; values inside both domains). -/
+theorem C12_equal_deephash_iff_verdict (K : List PyVal) (hK : StrictK K) (hKo : KeyOk K) (c : IOCfg) (H : String → String)
+    (hinj : Function.Injective H) (hex : Hex H) (a b : PyVal)
+    (da : domV K (dh c H) a) (db : domV K (dh c H) b) (ca : domC K a) (cb : domC K b) :
+    dh c H a = dh c H b ↔ verdict c (dh c H) a b = true :=
+  ⟨hashComplete_V K hK hKo c H hinj hex reprInj a b ca cb, hashSound_concrete K hK c H a b da db⟩
+
+/-- **C12 in the model**: the DeepHash digests of `a` and `b` (with `ignore_repetition = not
+report_repetition` and the shared options) are equal exactly when the order-ignoring diff is empty —
+for every pairing, report_repetition setting and threshold in [0,1]. -/
+theorem C12_equal_deephash_iff_empty_diff (K : List PyVal) (hK : StrictK K) (hKo : KeyOk K) (c : IOCfg) (H : String → String) (P : Pairs)
+    (hinj : Function.Injective H) (hex : Hex H) (hc : c.thrNum ≤ c.thrDen) (a b : PyVal)
+    (da : domV K (dh c H) a) (db : domV K (dh c H) b) (ca : domC K a) (cb : domC K b) :
+    dh c H a = dh c H b ↔ (deepDiff c (dh c H) P a b).tree = [] :=
+  (C12_equal_deephash_iff_verdict K hK hKo c H hinj hex a b da db ca cb).trans
+    (C05_verdict_deephash K hK c H P hc a b da db).symm
+
+/-! ### the hash-level verdict read as nested set / multiset equality -/
+
+theorem count_map_dh (f : PyVal → String) (xs : List PyVal) (h : String) : (xs.map f).count h = xs.countP (fun x => f x == h) := by
+  induction xs with
+  | nil => rfl
+  | cons x xs ih => simp only [List.map_cons, List.count_cons, List.countP_cons, ih]
+
+/-- **C05, semantic reading**: at a list, the verdict says exactly that the two lists are equal as
+sets of items up to the verdict (every item of one side has an equivalent item on the other), and —
+with `report_repetition` — that every item has as many equivalent items on both sides.  `eqv` is
+discharged by `C12_equal_deephash_iff_verdict` in `C05_list_is_nested_set_equality`. -/
+theorem list_verdict_semantic (c : IOCfg) (hashOf : PyVal → String) (xs ys : List PyVal)
+    (eqv : ∀ x ∈ xs ++ ys, ∀ y ∈ xs ++ ys, hashOf x = hashOf y ↔ verdict c hashOf x y = true) :
+    verdict c hashOf (.list xs) (.list ys) = true ↔
+      (∀ x ∈ xs, ∃ y ∈ ys, verdict c hashOf x y = true) ∧ (∀ y ∈ ys, ∃ x ∈ xs, verdict c hashOf x y = true) ∧
+      (c.rep = true → ∀ z ∈ xs ++ ys, xs.countP (fun x => verdict c hashOf z x) = ys.countP (fun y => verdict c hashOf z y)) := by
+  have cnt : ∀ (l : List PyVal), (∀ v ∈ l, v ∈ xs ++ ys) → ∀ z ∈ xs ++ ys,
+      (l.map hashOf).count (hashOf z) = l.countP (fun x => verdict c hashOf z x) := by
+    intro l hl z hz
+    rw [count_map_dh]
+    apply List.countP_congr
+    intro x hx
+    have := eqv z hz x (hl x hx)
+    constructor
+    · intro h
+      have h' : hashOf x = hashOf z := by simpa using h
+      exact this.1 h'.symm
+    · intro h
+      have h' := this.2 h
+      simp [h']
+  have inl : ∀ v ∈ xs, v ∈ xs ++ ys := fun v hv => List.mem_append_left _ hv
+  have inr : ∀ v ∈ ys, v ∈ xs ++ ys := fun v hv => List.mem_append_right _ hv
+  constructor
+  · intro hv
+    simp only [verdict, Bool.and_eq_true, isEmpty_iff_nil] at hv
+    obtain ⟨⟨ha, hr⟩, hre⟩ := hv
+    have hmem := same_members hashOf xs ys ha hr
+    refine ⟨?_, ?_, ?_⟩
+    · intro x hx
+      obtain ⟨y, hy, he⟩ := List.mem_map.1 ((hmem (hashOf x)).1 (List.mem_map.2 ⟨x, hx, rfl⟩))
+      exact ⟨y, hy, (eqv x (inl x hx) y (inr y hy)).1 he.symm⟩
+    · intro y hy
+      obtain ⟨x, hx, he⟩ := List.mem_map.1 ((hmem (hashOf y)).2 (List.mem_map.2 ⟨y, hy, rfl⟩))
+      exact ⟨x, hx, (eqv x (inl x hx) y (inr y hy)).1 he⟩
+    · intro hrep z hz
+      rw [← cnt xs inl z hz, ← cnt ys inr z hz]
+      exact same_counts c hashOf xs ys hrep hmem hre (hashOf z)
+  · rintro ⟨h1, h2, h3⟩
+    have hmem : ∀ h, h ∈ xs.map hashOf ↔ h ∈ ys.map hashOf := by
+      intro h
+      constructor
+      · intro hm
+        obtain ⟨x, hx, rfl⟩ := List.mem_map.1 hm
+        obtain ⟨y, hy, hv⟩ := h1 x hx
+        exact List.mem_map.2 ⟨y, hy, ((eqv x (inl x hx) y (inr y hy)).2 hv).symm⟩
+      · intro hm
+        obtain ⟨y, hy, rfl⟩ := List.mem_map.1 hm
+        obtain ⟨x, hx, hv⟩ := h2 y hy
+        exact List.mem_map.2 ⟨x, hx, (eqv x (inl x hx) y (inr y hy)).2 hv⟩
+    simp only [verdict]
+    apply iter_verdict_of c hashOf xs ys hmem
+    intro hrep h
+    by_cases hin : h ∈ xs.map hashOf
+    · obtain ⟨z, hz, rfl⟩ := List.mem_map.1 hin
+      rw [cnt xs inl z (inl z hz), cnt ys inr z (inl z hz)]
+      exact h3 hrep z (inl z hz)
+    · have hin' : h ∉ ys.map hashOf := fun hy => hin ((hmem h).2 hy)
+      rw [List.count_eq_zero_of_not_mem hin, List.count_eq_zero_of_not_mem hin']
+
+/-- **C05/C12: the verdict at a list is nested set (multiset) equality** — DeepHash model, injective
+hasher with separator-free digests, items inside the domains. -/
+theorem C05_list_is_nested_set_equality (K : List PyVal) (hK : StrictK K) (hKo : KeyOk K) (c : IOCfg) (H : String → String)
+    (hinj : Function.Injective H) (hex : Hex H) (xs ys : List PyVal)
+    (hdom : ∀ v ∈ xs ++ ys, domV K (dh c H) v ∧ domC K v) :
+    verdict c (dh c H) (.list xs) (.list ys) = true ↔
+      (∀ x ∈ xs, ∃ y ∈ ys, verdict c (dh c H) x y = true) ∧ (∀ y ∈ ys, ∃ x ∈ xs, verdict c (dh c H) x y = true) ∧
+      (c.rep = true → ∀ z ∈ xs ++ ys, xs.countP (fun x => verdict c (dh c H) z x) = ys.countP (fun y => verdict c (dh c H) z y)) :=
+  list_verdict_semantic c (dh c H) xs ys (fun x hx y hy =>
+    C12_equal_deephash_iff_verdict K hK hKo c H hinj hex x y (hdom x hx).1 (hdom y hy).1 (hdom x hx).2 (hdom y hy).2)
+
 /-! Non-vacuity: a nested value of the domain (key universe `["a", "b"]`). -/
 example (H : String → String) : domV [.str "a", .str "b"] (dh {} H)
     (.dict [(.str "a", .list [.int 1, .float 15 1, .tuple [.none]]), (.str "b", .dict [])]) := by
   simp [domV, domP, domL, distinctKeys, keyEq, hashable, canonFloat]
+example : domC [.str "a", .str "b"]
+    (.dict [(.str "a", .list [.int 1, .float 15 1, .tuple [.none]]), (.str "b", .dict [])]) := by
+  simp [domC, domCP, distinctKeys, keyEq, hashable]
+example : KeyOk [.str "a", .str "b"] := by
+  intro k hk
+  simp at hk
+  rcases hk with rfl | rfl <;> refine ⟨rfl, ?_⟩ <;> simp only [domC, noSpoofS, spoofTags] <;> refine ⟨by decide, ?_⟩ <;>
+    intro tag rest ht he <;> have := congrArg String.toList he <;> simp at ht <;>
+    rcases ht with rfl | rfl | rfl | rfl | rfl | rfl | rfl | rfl <;> simp [String.toList_append] at this
+/-- the hypotheses on the hasher are satisfiable -/
+example : ∃ H : String → String, Function.Injective H ∧ Hex H := ⟨escH, escH_injective, escH_hex⟩
 example : StrictK [.str "a", .str "b"] := by
   intro k hk k' hk' h
   simp at hk hk'
